@@ -377,6 +377,12 @@ func c08Scenario(pattern string, jitter float64, jname string) vx.Scenario {
 					w.lists = append(w.lists, listReply{kind: "503empty"})
 				} else if c == 'U' {
 					w.lists = append(w.lists, listReply{kind: "401empty"})
+				} else if c == 'A' {
+					// a success that hands out a request whose backend takes a while: it completes in the
+					// middle of whatever follows
+					id := fmt.Sprintf("r%d", len(w.lists))
+					w.lists = append(w.lists, listReply{ids: []string{id}})
+					w.backend[id] = &backendPlan{latency: 100 * time.Millisecond}
 				} else if c == 'T' {
 					w.lists = append(w.lists, listReply{kind: "timeout", delay: 20 * time.Millisecond})
 				} else if c == 'R' {
@@ -413,7 +419,7 @@ func c08Scenario(pattern string, jitter float64, jname string) vx.Scenario {
 						gap = w.listTimes[i+1] - w.listEnds[i]
 					}
 					gaps = append(gaps, gap.String())
-					if pattern[i] == 'S' || pattern[i] == 's' {
+					if pattern[i] == 'S' || pattern[i] == 's' || pattern[i] == 'A' {
 						consecutive = 0
 						continue
 					}
@@ -502,6 +508,8 @@ func c08Scenarios(th bool) []vx.Scenario {
 				}
 			}
 			out = append(out, c08Scenario("ssFFFFFFFFFFFFSsFFF", jit[jn], jn), c08Scenario(strings.Repeat("T", 14)+"S"+"TT", jit[jn], jn))
+			// a forwarded request finishes (successfully) in the middle of a run of failing list calls
+			out = append(out, c08Scenario("A"+strings.Repeat("F", 12), jit[jn], jn), c08Scenario("SA"+strings.Repeat("Z", 11)+"SF", jit[jn], jn), c08Scenario("AA"+strings.Repeat("T", 10), jit[jn], jn))
 		}
 		// long runs: reach and stay at the cap, recover, fail again; 5xx answers count as failures too
 		out = append(out, c08Scenario(strings.Repeat("F", 22)+"S"+"FFF", jit[jn], jn))
